@@ -7,6 +7,12 @@ use crate::bo::*;
 use crate::process_request::*;
 use crate::security::*;
 
+fn discard_queued_messages(receiver: &mut Receiver<String>) {
+    while let Ok(Some(message)) = receiver.try_next() {
+        log::debug!("http_ops::discard_queued_messages dropping {}", message);
+    }
+}
+
 fn process_commands(
     commands: &Vec<&str>,
     receiver: &mut Receiver<String>,
@@ -19,6 +25,9 @@ fn process_commands(
         if clean_command != "" {
             match process_request(clean_command, dbs, client) {
                 Response::Error { msg } => {
+                    // Some refusals also queue their text on the client channel: drop it, the error
+                    // text is this command's entry and must not become the entry of a later command
+                    discard_queued_messages(receiver);
                     responses.push(msg.clone());
                     log::debug!("Http response Error: {}", msg);
                 }
@@ -32,6 +41,7 @@ fn process_commands(
                     change: _,
                     db: _,
                 } => {
+                    discard_queued_messages(receiver);
                     responses.push(msg.clone());
                     log::debug!("Http response Error: {}", msg);
                 }
